@@ -15,12 +15,13 @@ var ghostKeys = map[string]string{
 	"$sctok":    "(Array Int Bytes)", // bufio.Scanner handle -> current token
 	"$out":      "(Sq Bytes)",        // lines printed to stdout (fmt.Print*, color.*)
 	"$calls":    "(Array Int Int)",   // function value -> number of calls made through it
+	"$iofail":   "Bool",              // some file-system modification (create, write, mkdir, remove, rename) has failed
 }
 
 // hidden state of library objects, console output and call counters: never part of a frame obligation; a caller
 // loses what it knew about them whenever the callee may (syntactically, transitively) touch them
 func isHiddenGhost(k string) bool {
-	return k == "$out" || k == "$rdpos" || k == "$hashdata" || k == "$screst" || k == "$sctok" || k == "$calls"
+	return k == "$out" || k == "$rdpos" || k == "$hashdata" || k == "$screst" || k == "$sctok" || k == "$calls" || k == "$iofail"
 }
 
 func isGhostKey(k string) bool { _, ok := ghostKeys[k]; return ok }
@@ -57,17 +58,17 @@ func (g *FuncGen) ghostSet(st *State, key, term string) {
 
 // effects of library functions on ghost state (for loop and call frames)
 var libEffects = map[string][]string{
-	"os.Create":                    {"$fs"},
-	"os.OpenFile":                  {"$fs"},
-	"os.Mkdir":                     {"$fs"},
-	"os.MkdirAll":                  {"$fs"},
-	"os.Remove":                    {"$fs"},
-	"os.Rename":                    {"$fs"},
-	"os.WriteFile":                 {"$fs"},
-	"(*os.File).Write":             {"$fs"},
-	"(*os.File).WriteString":       {"$fs"},
-	"encoding/binary.Write":        {"$fs"},
-	"io.WriteString":               {"$fs", "$hashdata"},
+	"os.Create":                    {"$fs", "$iofail"},
+	"os.OpenFile":                  {"$fs", "$iofail"},
+	"os.Mkdir":                     {"$fs", "$iofail"},
+	"os.MkdirAll":                  {"$fs", "$iofail"},
+	"os.Remove":                    {"$fs", "$iofail"},
+	"os.Rename":                    {"$fs", "$iofail"},
+	"os.WriteFile":                 {"$fs", "$iofail"},
+	"(*os.File).Write":             {"$fs", "$iofail"},
+	"(*os.File).WriteString":       {"$fs", "$iofail"},
+	"encoding/binary.Write":        {"$fs", "$iofail"},
+	"io.WriteString":               {"$hashdata"},
 	"(io.Reader).Read":             {"$rdpos", "$hashdata"},
 	"(*bytes.Reader).Read":         {"$rdpos", "$hashdata"},
 	"io.ReadAll":                   {"$rdpos", "$hashdata"},
@@ -87,4 +88,10 @@ func libEffectKeys(fullName string) []string {
 		return []string{"$hashdata"}
 	}
 	return nil
+}
+
+// ioFailed records that a file-system modification returned an error: err is the error term of the primitive.
+func (g *FuncGen) ioFailed(st *State, errT string) {
+	cur := g.ghostGet(st, "$iofail")
+	g.ghostSet(st, "$iofail", fmt.Sprintf("(or %s (not (= %s 0)))", cur, errT))
 }
